@@ -62,6 +62,7 @@ type Sched struct {
 	gs       []*Goroutine
 	cur      *Goroutine
 	timers   []*Timer
+	holdTimers bool // verifHoldTimers(true): no timer fires
 	byCell   map[*Value]*Timer
 	preempts int
 	trace    []string
@@ -192,7 +193,7 @@ func (s *Sched) others(g *Goroutine) []*Goroutine {
 		}
 	}
 	for _, t := range s.timers {
-		if t.armed {
+		if t.armed && !s.holdTimers {
 			out = append(out, &Goroutine{id: -1 - t.id, timer: t})
 		}
 	}
